@@ -1,6 +1,6 @@
 """props/C14.py — descriptor for property C14 (factored objects = flat expansion)."""
 REPO_SRCS = ["src/Factored/Utils/Core.cpp", "src/Factored/Utils/FactoredVectorOps.cpp", "src/Factored/Utils/FactoredMatrix.cpp",
-             "src/Factored/Utils/BayesianNetwork.cpp"]
+             "src/Factored/Utils/BayesianNetwork.cpp", "src/Factored/Utils/FactoredMatrix2DOps.cpp", "src/Seeder.cpp"]
 AXIOM_ALLOW = []
 TRUSTED_BASE = ["size_t modelled as unbounded nat (no wrap-around in the modelled range)",
                 "Eigen vectors/matrices modelled as lists of exact rationals; unchecked reads default to 0 in the model "
@@ -263,6 +263,63 @@ def gen_ddn(rng, kind):
     return "ddn %s %s %s %s 2 %s %s" % (L(S), L(A), " ".join(PS(p) for p in pss), " ".join(mats), " ".join(qs), B(basis))
 
 
+# ---------------------------------------------------------------- FactoredMatrix2D, reused buffers
+def rbm(rng, S, A, tag=None, atag=None):
+    if tag is None: tag = rkeys(rng, len(S))
+    if atag is None: atag = rkeys(rng, len(A))
+    rows, cols = prod(S[k] for k in tag), prod(A[k] for k in atag)
+    return (tag, atag, rows, cols, rvals(rng, rows * cols))
+
+def BM(b): return "%s %s %d %d %s" % (L(b[0]), L(b[1]), b[2], b[3], " ".join(b[4]))
+def FM(fm): return ("%d " % len(fm) + " ".join(BM(b) for b in fm)) if fm else "0"
+
+def related_bm(rng, S, A, fm):
+    def vary(t, n):
+        t = list(t); r = rng.random()
+        if r < 0.3 and len(t) > 1: return sorted(rng.sample(t, rng.randint(1, len(t) - 1)))
+        if r < 0.6:
+            extra = [k for k in range(n) if k not in t]
+            if extra: return sorted(t + rng.sample(extra, rng.randint(1, len(extra))))
+        return t
+    if fm and rng.random() < 0.75:
+        b = rng.choice(fm)
+        return rbm(rng, S, A, vary(b[0], len(S)), vary(b[1], len(A)))
+    return rbm(rng, S, A)
+
+def gen_2d(rng, kind):
+    if kind == "facout":
+        space = rspace(rng)
+        tot = prod(space)
+        ids = [rng.randrange(tot) for _ in range(rng.randint(2, 5))]
+        if rng.random() < 0.6: ids = [tot - 1] + ids + [0, rng.randrange(min(tot, 2))]
+        return "facout %s %d %s" % (L(space), rng.choice([0, 1, 7]), L(ids))
+    if kind == "flatb":
+        A = [rng.choice([1, 2, 2, 3]) for _ in range(rng.choice([1, 2, 3, 3]))]
+        groups = [rkeys(rng, len(A)) for _ in range(rng.randint(1, 3))]
+        tot = prod(A)
+        pulls = [rng.randrange(tot) for _ in range(rng.randint(2, 6))]
+        if rng.random() < 0.6: pulls = [tot - 1, 0] + pulls
+        return "flatb %s %d %s %s" % (L(A), len(groups),
+                                     " ".join("%s %s" % (L(g), LQ(rvals(rng, prod(A[k] for k in g)))) for g in groups), L(pulls))
+    S = [rng.choice([1, 2, 2, 3]) for _ in range(rng.choice([1, 2, 2, 3]))]
+    A = [rng.choice([1, 2, 2]) for _ in range(rng.choice([1, 2]))]
+    fm = [rbm(rng, S, A) for _ in range(rng.randint(0, 3))]
+    op = rng.choice(["plus", "plus", "plusrv", "plusfm", "plusfmrv", "scale", "scalew", "scalew", "scalewc", "getw"])
+    if op in ("scalew", "scalewc") and not fm:
+        fm = [rbm(rng, S, A) for _ in range(rng.randint(1, 3))]
+    head = "fm %s %s %s %s" % (op, L(S), L(A), FM(fm))
+    nb = len(fm)
+    if op in ("plus", "plusrv"): return "%s %s" % (head, BM(related_bm(rng, S, A, fm)))
+    if op in ("plusfm", "plusfmrv"): return "%s %s" % (head, FM([related_bm(rng, S, A, fm) for _ in range(rng.randint(0, 3))]))
+    if op == "scale": return "%s %s" % (head, Q(rng.randint(-6, 6)))
+    if op in ("scalew", "scalewc"):
+        w = [Q(rng.randint(-6, 6)) for _ in range(nb)]
+        if rng.random() < 0.6: w.append(Q(nb * rng.choice([-6, -5, -3, -2, -1, 1, 2, 3, 5, 6])))
+        return "%s %s" % (head, LQ(w))
+    w = [Q(rng.randint(-6, 6)) for _ in range(nb + (1 if rng.random() < 0.5 else 0))]
+    return "%s %s" % (head, LQ(w))
+
+
 CORE_KINDS = ["idx", "fac", "pidx", "pfac", "enum", "enum", "enumall", "enumskip", "enumskip", "enumskip",
               "enumskipall", "ienum", "ienum", "ienumall", "merge", "merge", "match", "matchp", "rmf", "matchf",
               "matchk", "chk", "chk", "kpf", "iskip"]
@@ -272,10 +329,12 @@ def gen(rng, tier):
     out = []
     while len(out) < n:
         u = rng.random()
-        if u < 0.45:
+        if u < 0.40:
             c = gen_core(rng, rng.choice(CORE_KINDS))
-        elif u < 0.85:
+        elif u < 0.72:
             c = gen_alg(rng, rng.choice(ALG_KINDS))
+        elif u < 0.87:
+            c = gen_2d(rng, rng.choice(["facout", "facout", "flatb", "fm", "fm", "fm", "fm"]))
         else:
             c = gen_ddn(rng, rng.choice(["ddn", "ddn", "ddnpush"]))
         if c is not None:
